@@ -153,6 +153,14 @@ def _s_fdebug(f):
     f.body[0].value.args[1].values[1].value.replace('abc.d')
 
 
+def _s_fspec_nested(f):
+    f.body[0].value.args[1].values[0].value.right.right.replace('abc.d')
+
+
+def _s_fspec_tuple(f):
+    f.body[0].value.args[1].values[0].value.elts[1].right.replace('q')
+
+
 def _s_call_kw(f):
     f.body[0].value.keywords[0].value.replace('w + 1')
 
@@ -170,6 +178,8 @@ LETTER = [
     ('binop_replace_twice', 's = "¡" + a  # ¢\nt = 1\n', _s_binop2, 'quick'),
     ('list_put_slice', 'x = ["¡", a,  # ¢\n     b, "£"]\n', _s_list_put, 'quick'),
     ('fstring_debug_replace', 'print("¡", f"{a=}")\n', _s_fdebug, 'quick'),
+    ('fstring_spec_nested', 'print("¡", f"{x+y*a:>5}")  # ¢\n', _s_fspec_nested, 'quick'),
+    ('fstring_spec_tuple', 'print("¡", f"{a, b+ccc:>5}")\n', _s_fspec_tuple, 'thorough'),
     ('call_kw_replace', 'r = f("¡", k=v)  # ¢\n', _s_call_kw, 'thorough'),
     ('stmt_insert', 'if c:  # ¡\n    x = "¢"  # £\n    y = 1\n', _s_stmt_insert, 'thorough'),
     ('tuple_del_elt', 'x = ("¡", a, "¢", b)\n', _s_del_elt, 'thorough'),
